@@ -738,6 +738,8 @@ const FUNCS: &[(&str, &str, &str)] = &[
     ("functionLike", "src/mir/lower.rs", "function_like"),
     ("matchExpr", "src/mir/lower/match_expr.rs", "match"),
     ("matchCase", "src/mir/lower/match_expr.rs", "match_case"),
+    // one stage down: `Lowerer::call` of the MIR -> LIR lowering emits exactly one `Instruction::Call`
+    ("lirCall", "src/lir/lower.rs", "call"),
 ];
 
 fn lean_str(s: &str) -> String {
